@@ -370,6 +370,8 @@ class CallMixin:
             try:
                 self.exec_block(f.node.body)
                 ret = NONE
+                if self.cfg.all_branches and getattr(fr, "retvals", None):
+                    ret = fr.retvals[0]
             except _Return as r:
                 ret = r.v
         finally:
@@ -620,9 +622,11 @@ class CallMixin:
                 if op == "get" and "getclass" in kwargs:
                     return V(("rd", "class", rt, kt), (), dep)
                 return V(("sub", rt, kt), [h5("obj")], dep)
-            if kind == "obj" and key is not None and (is_const(key) and isinstance(key.t[1], str)
-                                                        or any(t == py("str") for t in key.ty)):
-                return V(("sub", rt, kt), [h5("obj")], dep)
+            if kind == "obj" and key is not None:
+                datakey = (is_const(key) and not isinstance(key.t[1], str)) or kt[0] in ("slice", "tuple") or \
+                    any(t in (py("int"), py("slice"), py("tuple"), py("list"), py("ndarray")) for t in key.ty)
+                if not datakey:
+                    return V(("sub", rt, kt), [h5("obj")], dep)
             return V(("rd", "data", rt, kt), [py("ndarray")], dep)
         if op in ("values", "keys", "items"):
             ety = h5("obj") if op == "values" else py("str")
